@@ -95,6 +95,8 @@ def run_case(E, mod, case, rng):
         for k, v in case.overrides.items():
             if not k.endswith(".open"):
                 I.overrides[k] = v
+        for k in getattr(case, "drop_overrides", ()):
+            I.overrides.pop(k, None)
         I.no_contract_for |= set(case.target)
         # modular contracts are a proof device too: run the real callee bodies
         saved_contracts = dict(I.contracts)
